@@ -31,7 +31,10 @@ PAYLOAD_IN = {
     'PayloadFrame[!complete,!next]': [],
     'PayloadFrame[!complete,next]': [[N]],
     'PayloadFrame[complete,!next]': [[C]],
-    'PayloadFrame[complete,next]': [[NC], [N, C]],
+    # one signal that carries the flag: the library's own subscribers (the collector's top-up and cut-off, the Rx
+    # adapters' replenishment) decide from is_complete whether to ask for more - on_next without it, followed by
+    # on_complete, lets them emit REQUEST_N / CANCEL on a stream whose COMPLETE has already been received (seed C08m)
+    'PayloadFrame[complete,next]': [[NC]],
     'ErrorFrame': [[E]],
 }
 SUBSCRIBER_OUT = {
